@@ -119,7 +119,11 @@ theorem C09_status_keys_eq_accepted (utf8 : Bool) (pool : Pool) (tx : Tx) (x : N
     rw [← hr]
     simp at hemp
     simp [hemp]
-  · rw [bodyStatuses_keys, hk, hr]
+  · split
+    · rw [List.map_map]
+      have hid : ((fun p : Nat × Bool => p.1) ∘ fun id => (id, false)) = id := by funext y; rfl
+      rw [hid, List.map_id, ← hr]
+    · rw [bodyStatuses_keys, hk, hr]
 
 /-! ### ground truth at the next hop -/
 
@@ -192,9 +196,12 @@ theorem C09_ok_status_was_delivered (utf8 : Bool) (pool : Pool) (tx : Tx) (id : 
     (id, true) ∈ o.statuses → id ∈ o.delivered := by
   simp only [runTx]
   have hs := addAll_synced utf8 tx.rcpts [] pool [] (by intro e he; simp at he)
-  split
-  · intro h; simp at h
-  · intro h; exact ok_status_delivered _ _ hs id h
+  by_cases hemp : (addAll utf8 ([], pool, []) tx.rcpts).1.2.2.isEmpty = true
+  · simp [hemp]
+  · by_cases hq : tx.quarantine = true
+    · simp [hemp, hq]
+    · simp only [hemp, hq, Bool.false_eq_true, ↓reduceIte, Bool.or_self]
+      intro h; exact ok_status_delivered _ _ hs id h
 
 theorem count_map_pair (l : List Nat) (b : Bool) (id : Nat) :
     (l.map (fun x => (x, b))).count (id, true) = if b = true then l.count id else 0 := by
@@ -227,9 +234,12 @@ theorem C09_ok_status_count_eq_delivered (utf8 : Bool) (pool : Pool) (tx : Tx) (
     o.statuses.count (id, true) = o.delivered.count id := by
   simp only [runTx]
   have hs := addAll_synced utf8 tx.rcpts [] pool [] (by intro e he; simp at he)
-  split
-  · simp
-  · exact ok_status_count_delivered _ _ hs id
+  by_cases hemp : (addAll utf8 ([], pool, []) tx.rcpts).1.2.2.isEmpty = true
+  · simp [hemp]
+  · by_cases hq : tx.quarantine = true
+    · simp [hemp, hq, count_map_pair]
+    · simp only [hemp, hq, Bool.false_eq_true, ↓reduceIte, Bool.or_self]
+      exact ok_status_count_delivered _ _ hs id
 
 /-- A status for a recipient of a connection that broke is a failure. -/
 theorem C09_dead_connection_statuses_fail (conns : Conns) (f : Nat → Bool) (d : Nat) (c : Conn)
@@ -237,6 +247,58 @@ theorem C09_dead_connection_statuses_fail (conns : Conns) (f : Nat → Bool) (d 
     (id, false) ∈ bodyStatuses conns f := by
   simp only [bodyStatuses, List.mem_flatMap, List.mem_map, Prod.mk.injEq]
   exact ⟨(d, c), hmem, id, hid, rfl, by simp [hdead]⟩
+
+/-! ### the message body: buffers that cannot be opened (again), readers that fail, quarantine
+
+`C09_status_keys_eq_accepted`, `C09_ok_status_was_delivered` and `C09_ok_status_count_eq_delivered` quantify
+over every `Tx`, that is over every `openFail` / `readFail` pattern (whichever connections the scheduler
+lets open the buffer before it stops working) and over `quarantine`: still exactly one result per
+accepted recipient, and no success for a recipient whose connection never got the body. -/
+
+theorem bodyStatuses_congr (conns : Conns) (f g : Nat → Bool) (h : ∀ e ∈ conns, f e.1 = g e.1) :
+    bodyStatuses conns f = bodyStatuses conns g := by
+  induction conns with
+  | nil => simp [bodyStatuses]
+  | cons e rest ih =>
+    have he := h e (by simp)
+    have ih' := ih (fun x hx => h x (by simp [hx]))
+    simp only [bodyStatuses, List.flatMap_cons] at ih' ⊢
+    rw [ih', he]
+
+/-- **C09 (remote target, body failure of one connection).** The connection `d` whose goroutine could
+not open the buffer (or whose reader failed) reports that for ITS recipients only: the results of all
+other connections are what they would have been without the failure. -/
+theorem C09_body_failure_stays_with_its_connection (conns : Conns) (f g : Nat → Bool) (d : Nat)
+    (h : ∀ d', d' ≠ d → f d' = g d') :
+    bodyStatuses (conns.filter (fun e => e.1 != d)) f = bodyStatuses (conns.filter (fun e => e.1 != d)) g := by
+  apply bodyStatuses_congr
+  intro e he
+  simp only [List.mem_filter, bne_iff_ne, ne_eq] at he
+  exact h e.1 he.2
+
+/-- Every recipient of a connection that did not get the body gets a result, and it is a failure. -/
+theorem C09_body_unavailable_statuses_fail (conns : Conns) (tx : Tx) (d : Nat) (c : Conn)
+    (hmem : (d, c) ∈ conns) (hf : (tx.openFail d || tx.readFail d) = true) (id : Nat) (hid : id ∈ c.rcpts) :
+    (id, false) ∈ bodyStatuses conns tx.fails := by
+  simp only [bodyStatuses, List.mem_flatMap, List.mem_map, Prod.mk.injEq]
+  refine ⟨(d, c), hmem, id, hid, rfl, ?_⟩
+  simp only [Bool.or_eq_true] at hf
+  rcases hf with hf | hf <;> simp [Tx.fails, hf]
+
+/-- **C09 (remote target, quarantined message).** If the message is quarantined after the recipients
+were added, every accepted recipient gets exactly one result, a failure, under the address given —
+in the order of acceptance — and nothing is handed to the next hop. -/
+theorem C09_quarantine_one_failure_each (utf8 : Bool) (pool : Pool) (tx : Tx) (hq : tx.quarantine = true) :
+    let o := (runTx utf8 pool tx).2
+    o.statuses = ((o.adds.filter (fun p => p.2)).map (fun p => p.1)).map (fun id => (id, false)) ∧ o.delivered = [] := by
+  simp only [runTx]
+  have hr := addAll_recips utf8 tx.rcpts [] pool []
+  simp only [List.nil_append] at hr
+  by_cases hemp : (addAll utf8 ([], pool, []) tx.rcpts).1.2.2.isEmpty = true
+  · have hnil : (addAll utf8 ([], pool, []) tx.rcpts).1.2.2 = [] := by simpa using hemp
+    rw [hnil] at hr
+    simp [hemp, hq, ← hr]
+  · simp [hemp, hq, ← hr]
 
 /-- The same for every transaction of a history sharing one pool. -/
 theorem C09_history (utf8 : Bool) :
@@ -318,6 +380,49 @@ theorem C09_pipeline_each_effective_to_its_own_client (orig : List (Nat × Nat))
       simp only [hb]
       exact this
 
+/-! ### nested pipelines (`reroute { … }`, a pipeline used as a target) -/
+
+/-- **C09 (nested pipelines).** A final address the INNER pipeline produced from `eff`, which the OUTER
+pipeline had produced from `client`: the result comes back under `client`. -/
+theorem C09_nested_pipeline_result_under_client_address (outer inner : List (Nat × Nat)) (fin eff client : Nat)
+    (hI : inner.find? (fun e => e.1 == fin) = some (fin, eff))
+    (hO : outer.find? (fun e => e.1 == eff) = some (eff, client)) :
+    translateNested outer inner fin = client := by
+  simp [translateNested, translate, hI, hO]
+
+/-- An address the inner pipeline did not rewrite is translated by the outer delivery alone — ONE
+look-up, also when the address it is translated to is itself a rewrite result of the outer pipeline. -/
+theorem C09_nested_pipeline_unrewritten_by_inner (outer inner : List (Nat × Nat)) (eff : Nat)
+    (h : ∀ e ∈ inner, e.1 ≠ eff) : translateNested outer inner eff = translate outer eff := by
+  unfold translateNested
+  rw [C09_pipeline_unrewritten_unchanged inner eff h]
+
+/-- **C09 (nested pipelines, overlapping rewrites).** With distinct keys in each delivery's own table,
+every final recipient's result is reported under exactly the client-supplied recipient of the outer
+recipient it was produced from — whatever else the tables hold (the client-supplied address being a
+rewrite result of another recipient, the final address being spelled like some client-supplied one). -/
+theorem C09_nested_pipeline_each_final_to_its_own_client (outer inner : List (Nat × Nat))
+    (hO : (outer.map (fun e => e.1)).Nodup) (hI : (inner.map (fun e => e.1)).Nodup) :
+    ∀ i ∈ inner, ∀ o ∈ outer, o.1 = i.2 → translateNested outer inner i.1 = o.2 := by
+  intro i hi o ho hoi
+  unfold translateNested
+  rw [C09_pipeline_each_effective_to_its_own_client inner hI i hi, ← hoi]
+  exact C09_pipeline_each_effective_to_its_own_client outer hO o ho
+
+/-- The defect this replaced (fixed, `notes/C09.fix-1.patch`): outer and nested delivery both translated
+through the ONE table in `MsgMetadata.OriginalRcpts`. Client sends 1 and 2, the outer pipeline rewrites
+1→2 and 2→13 and reroutes: the result for 13 was translated to 2 by the nested delivery and on to 1 by
+the outer one — two results for 1, none for 2. With a table per delivery it stays with 2. -/
+theorem C09_shared_table_translated_twice_counterexample :
+    let shared : List (Nat × Nat) := [(13, 2), (2, 1)]
+    translate shared (translate shared 13) = 1 ∧ translateNested shared [] 13 = 2 := by decide
+
+/-- outer 1→11, nested pipeline 11→41 and 11→42 (1-to-N inside the nest): both results under 1; the
+unrelated client recipient 2 (not rewritten anywhere) keeps its address. -/
+example : let outer : List (Nat × Nat) := [(11, 1)]
+    let inner : List (Nat × Nat) := [(42, 11), (41, 11)]
+    translateNested outer inner 41 = 1 ∧ translateNested outer inner 42 = 1 ∧ translateNested outer inner 2 = 2 := by decide
+
 /-- a→b, b→c, client sends a (=1) and b (=2), c = 13: the result for 2 (what a became) is filed under
 1 and the result for 13 under 2 — one result each. -/
 example : let orig : List (Nat × Nat) := [(13, 2), (2, 1)]
@@ -352,6 +457,14 @@ def dupTx : Tx := { rcpts := [⟨1, 0, false, false, true, false⟩, ⟨1, 0, fa
 example : (runTx false [] dupTx).2.adds = [(1, true), (1, false), (1, true), (2, true)] := by decide
 example : (runTx false [] dupTx).2.statuses = [(1, true), (1, true), (2, false)] := by decide
 example : (runTx false [] dupTx).2.delivered = [1, 1] := by decide
+/-- three connections; the buffer could be opened for connection 1 only when connection 0's and 2's
+goroutines came: their recipients get one failure each, connection 1 is delivered — and keeps its result. -/
+def openFailTx : Tx := { rcpts := [⟨1, 0, false, false, true, false⟩, ⟨2, 1, false, false, true, false⟩, ⟨3, 2, false, false, true, false⟩,
+                                   ⟨4, 0, false, false, true, false⟩],
+                         dataFail := fun _ => false, openFail := fun d => d != 1 }
+example : (runTx false [] openFailTx).2.statuses = [(1, false), (4, false), (2, true), (3, false)] := by decide
+example : (runTx false [] openFailTx).2.delivered = [2] := by decide
+example : (runTx false [] { openFailTx with quarantine := true }).2.statuses = [(1, false), (2, false), (3, false), (4, false)] := by decide
 /-- LMTP: the same address accepted twice gets the replies at ITS two positions, the recipient after
 it keeps its own reply (nothing shifts). -/
 example : lmtpStatuses [1, 1, 2] [true, false, true] = [(1, true), (1, false), (2, true)] := by decide
